@@ -124,7 +124,10 @@ func (p *poller) addDialer(c *Conn) error {
 	c.isWAdded = true
 	err := p.addReadWrite(fd)
 	if err != nil {
+		// not registered: as above, the error returned is the whole outcome
+		// (no close notification, the caller undoes its own accounting).
 		p.g.connsUnix[fd] = nil
+		c.p = nil
 		c.onConnected = nil
 		_ = c.closeWithError(err)
 	}
